@@ -44,3 +44,12 @@ Definition heap_img_ok (c : hcase) : option nat :=
     else if negb (cells_match img (rd (hc_mem c) (hc_off c) (hc_size c))) then Some 3%nat
     else heap_ok c
   end.
+
+(* format conformance alone (no expected value): the bytes of an object, after whatever the implementation
+   accepted to do to it, are still accepted by the strict decoder and have the size fixed at creation *)
+Record dcase := mkDC { dc_ty : ty; dc_bytes : list Z; dc_size : Z }.
+Definition decodes_ok (c : dcase) : option nat :=
+  match dec (dc_ty c) (dc_bytes c) 0 with
+  | Some (_, s) => if s =? dc_size c then None else Some 5%nat
+  | None => Some 4%nat
+  end.
